@@ -131,7 +131,8 @@ Definition dm_observe (m : mgraph) : list (list Z) :=
     map (fun e => zout zid (dm_get_multiplicity m (fst e) (snd e))) (pairs n);
     map (fun i => zout zid (dm_out_degree m i)) vs ++ zvec zid n (dm_out_degrees m) ++ map (fun i => zout zid (dm_in_degree m i)) vs ++ zvec zid n (dm_in_degrees m);
     zmat n (dm_adjacency_matrix m);
-    edge_counts n (iterate V g) ].
+    edge_counts n (iterate V g);
+    iter_segment V g ].
 
 Inductive mop :=
 | MAdd (s d : nat) (force : bool) | MAddRecip (s d : nat) (force : bool) | MAddMulti (s d : nat) (k : Z) (force : bool) | MAddRecipMulti (s d : nat) (k : Z) (force : bool)
@@ -245,7 +246,8 @@ Definition um_observe (m : mgraph) : list (list Z) :=
     map (fun e => zout zid (um_get_multiplicity m (fst e) (snd e))) (pairs n);
     map (fun i => zout zid (um_degree m i true)) vs ++ map (fun i => zout zid (um_degree m i false)) vs ++ zvec zid n (um_degrees m true) ++ zvec zid n (um_degrees m false);
     zmat n (um_adjacency_matrix m true) ++ zmat n (um_adjacency_matrix m false);
-    edge_counts n (u_iterate V g) ].
+    edge_counts n (u_iterate V g);
+    iter_segment V g ].
 Definition um_step (m : mgraph) (o : mop) : mgraph * res :=
   match o with
   | MAdd a b f | MAddRecip a b f => um_add_multiedge m a b 1 f
